@@ -24,8 +24,17 @@ class Message:
         self.channel = channel
         self.is_fd = is_fd
         self.is_rx = is_rx
+        # python-can: data is always a bytearray (empty when none was given), dlc defaults to its length
+        if data is None:
+            data = bytearray()
+        else:
+            from ..symbytes import SymByteArray, _items_of
+            it = _items_of(data)
+            if it is None:
+                it = list(data)
+            data = bytearray(it) if all(type(b) is int for b in it) else SymByteArray(it)
         self.data = data
-        self.dlc = dlc
+        self.dlc = len(data) if dlc is None else dlc
 
     def __repr__(self):
         return "Message(id=%r, ext=%r, rtr=%r, data=%r)" % (
